@@ -40,14 +40,16 @@ def load_dump(path):
     out = []
     with open(path) as f:
         text = f.read()
-    cur = {}
-    for m in _RE_BLOCK.finditer(text):
-        cur[m.group(1)] = m.group(2)
-        if len(cur) == 2:
-            inner = cur["bytes"].strip()[2:-2].strip()
-            b = bytes(int(x) for x in inner.split(",")) if inner else b""
-            out.append((b, cur["ok"].strip() == "TRUE"))
-            cur = {}
+    for block in re.split(r"^State \d+:\s*$", text, flags=re.M):
+        block = " ".join(block.split())            # TLC wraps long tuples over several lines
+        if not block:
+            continue
+        mb = re.search(r"/\\ bytes = <<([0-9, ]*)>>", block)
+        mo = re.search(r"/\\ ok = (TRUE|FALSE)", block)
+        if not mb or not mo:
+            raise MachineryError(f"cannot parse state dump block: {block[:200]}")
+        inner = mb.group(1).strip()
+        out.append((bytes(int(x) for x in inner.split(",")) if inner else b"", mo.group(1) == "TRUE"))
     return out
 
 
